@@ -291,6 +291,8 @@ pub enum ExpressionError<'a> {
     IntegerConversion(#[from] TryFromIntError),
     #[error("integer overflow")]
     IntegerOverflow,
+    #[error("non-finite floating point value")]
+    NonFiniteFloat,
     #[error("type resolution failed: {0}")]
     TypeResolution(#[from] TypeMapError),
     #[error(
